@@ -104,7 +104,7 @@ func C18(p *an.Prog, r *an.Report) {
 	closure := map[*ssa.Function]bool{}
 	for _, fn := range entries {
 		var writes []c18Write
-		ta := &an.Taint{P: p}
+		ta := &an.Taint{P: p, GlobalsShared: true}
 		ta.OnWrite = func(f *ssa.Function, in ssa.Instruction, target an.PathSet, what string) {
 			writes = append(writes, c18Write{f, in, what, target.Key()})
 		}
